@@ -1,6 +1,6 @@
 (** Single dispatch point: the extracted driver and the in-Coq cross-check both call this. *)
 From Coq Require Import ZArith QArith String List.
-From QS Require Import theories.Val theories.EntryBroker theories.EntryCal theories.EntryPcm theories.EntryData.
+From QS Require Import theories.Val theories.EntryBroker theories.EntryCal theories.EntryPcm theories.EntryData theories.EntrySignals theories.EntryStats.
 Import ListNotations.
 Open Scope string_scope.
 
@@ -20,4 +20,6 @@ Definition dispatch (name : string) (v : val) : val :=
   else if String.eqb name "pcm_seq" then entry_pcm_seq v
   else if String.eqb name "data" then entry_data v
   else if String.eqb name "data_multi" then entry_data_multi v
+  else if String.eqb name "signals" then entry_signals v
+  else if String.eqb name "stats" then entry_stats v
   else VL [VS "UNKNOWN_ENTRY"].
